@@ -109,7 +109,15 @@ def run_check(prop, tier, seed, jobs, runs=None, budget=None, write_evidence=Tru
         d = p.directed(tier, seed)
         if d:
             extra_cov[p.name] = d.get("coverage", {})
+            seen_d = set()
             for v in d.get("violations", []):
+                sg = v["res"]["violation"]["signature"]
+                if sg in seen_d:
+                    continue
+                seen_d.add(sg)
+                if sg in reproduced:
+                    known_hit[sg] += 1
+                    continue
                 new_violations.append((p, v))
             total_runs += d.get("evaluations", 0)
             if d.get("error"):
